@@ -19,10 +19,16 @@ TRUSTED_BASE_COMMON = [
 # suite name -> Coq correspondence module
 SUITE_MODULES = {
     "varint": "VarintC",
+    "frame": "FrameC",
+    "sheader": "FrameC",
+    "typestate": "StreamTSC",
 }
 
 SUITE_FRANGE = {
     "varint": (100, 199),
+    "frame": (200, 249),
+    "sheader": (250, 299),
+    "typestate": (300, 399),
 }
 
 
@@ -39,8 +45,8 @@ KNOWN_CLASSES = {}
 PROPS = {
     "C14": {
         "title": "Encoding and decoding are exact inverses with exact sizes",
-        "corr_modules": ["VarintC"],
-        "suites": [("e1", "varint", ["debug"])],
+        "corr_modules": ["VarintC", "FrameC"],
+        "suites": [("e1", "varint", ["debug"]), ("e1", "frame", ["debug"]), ("e1", "sheader", ["debug"])],
         "technique": "Rocq proof (induction over byte counts / lists) on an executable Gallina model + differential correspondence check against the Rust code",
         "level_text": "machine-checked theorems for all values/byte strings (no size bound) about the Gallina model of the codec; model tied to /repo by running model and implementation on the same generated and exhaustive-range cases every run",
         "level_note": "trusts: Coq kernel+VM, the hand-written model (validated differentially, finite tables exhaustively), the Rust harness; octets/std are modelled, not verified",
@@ -48,6 +54,33 @@ PROPS = {
         "trusted_base": ["octets 0.3 get_varint/put_varint/varint_len are modelled in Model/Varint.v from their source and compared on every run"],
         "assumptions": ["Vec/BufferWriter memory behaviour as documented by std/octets"],
     },
+}
+
+PROOF_TECH = "Rocq proof (induction over byte strings / frame sequences / schedules) on an executable Gallina model + differential correspondence check against the Rust code"
+CODEC_NOTE = "trusts: Coq kernel+VM, the hand-written model (validated differentially on every run, finite tables exhaustively), the Rust harness; octets/std are modelled, not verified"
+
+PROPS["C15"] = {
+    "title": "All decoding paths agree and incomplete input is never consumed",
+    "corr_modules": ["FrameC", "StreamTSC"],
+    "suites": [("e1", "frame", ["debug"]), ("e1", "sheader", ["debug"]), ("e1", "typestate", ["debug"])],
+    "technique": PROOF_TECH,
+    "level_text": "theorems for every byte string, every terminal and every schedule of chunk sizes and Pending results: one-shot = buffered = async for frames, stream headers and the typestates' read_frame loops; the GetVarint/GetBuffer poll machines are proved to keep their progress across Pending; model tied to /repo by three-path differential runs with generated schedules",
+    "level_note": CODEC_NOTE + "; that an async fn resumes where it was suspended is Rust semantics and is trusted",
+    "design_ref": "DESIGN.md 5 (C15), 2.3",
+    "trusted_base": ["Rust async/await resumption semantics (the async fn bodies are modelled over completed reads; the poll machines GetVarint/GetBuffer are modelled and proved explicitly)"],
+    "assumptions": ["AsyncRead sources obey the documented contract (Ok(0) only at EOF)"],
+}
+
+PROPS["C13"] = {
+    "title": "Unknown and GREASE protocol elements are skipped whole, with no side effects",
+    "corr_modules": ["StreamTSC"],
+    "suites": [("e1", "typestate", ["debug"])],
+    "technique": PROOF_TECH,
+    "level_text": "theorems: an unknown frame of any type id / payload is consumed whole on the sync and async paths of every typestate, and any number of insertions at frame boundaries leaves the delivered frames and the ending unchanged (induction over the exchange); pre-repair code refuted by a computed witness; tie: metamorphic differential runs",
+    "level_note": CODEC_NOTE,
+    "design_ref": "DESIGN.md 5 (C13), 6",
+    "trusted_base": [],
+    "assumptions": [],
 }
 
 ALL_IDS = ["C%02d" % i for i in range(1, 21)]
